@@ -115,6 +115,8 @@ def explore(chk):
              [[(999, 1000), (1000, 1001), (1001, 2000400), (2000900, 3000000)]],
              [[(1000000, 2000000), (1000000, 3000000), (1000000, 2000000), (4000000, 5000000)]],
              [[(0, 999), (40000, 79999)], [(0, 400), (1000000, 1000400)]],
+             # captions that are not in ascending order of start: one cue per caption, in the order of the set
+             [[(5000000, 6500000), (1000000, 2000000), (3000000, 4000000)]],
              # a second language that starts before every cue of the first and later shares instants with it
              [[(1000000, 2000000), (5000000, 6000000)], [(200000, 1000000), (1000000, 2000000), (5000000, 6000000)]],
              [[(3000000, 4000000), (5000000, 6000000), (8000000, 9000000)], [(500000, 900000), (3000000, 4000000), (4000000, 5000000)],
